@@ -4,6 +4,7 @@ CONSTANTS
   MaxLen = 3
   MaxOps = 4
   Universe = "adv"
+  Deep = FALSE
   Snaps = FALSE
   BType = "raw"
   BRawId = ""
